@@ -131,8 +131,8 @@ func removalMutants(base *Program, idPrefix string, max int, r interface{ Intn(i
 // nearMissCases builds the near-miss matrix for C06.
 func nearMissCases() []*RejectCase {
 	var out []*RejectCase
-	forms := []string{"ptr-for-value", "value-for-ptr", "impl-for-iface", "underlying-for-named", "named-for-underlying", "alias-for-original"}
-	positions := []string{"result", "func-param", "struct-field", "bind-concrete", "fields-parent", "fields-parent-ptr-to-field"}
+	forms := []string{"ptr-for-value", "value-for-ptr", "impl-for-iface", "underlying-for-named", "named-for-underlying", "alias-for-original", "other-instantiation", "other-instantiation-nested", "other-spelling"}
+	positions := []string{"result", "func-param", "func-param-after-have", "struct-field", "struct-field-after-have", "bind-concrete", "fields-parent", "fields-parent-ptr-to-field"}
 	n := 0
 	for _, form := range forms {
 		for _, pos := range positions {
@@ -163,6 +163,22 @@ func nearMissCases() []*RejectCase {
 				a.Alias = true
 				need, have = s, Named(a)
 				accept = true
+			case "other-instantiation", "other-instantiation-nested":
+				// Box[A] is provided, Box[B] is needed: instantiations of one generic type are
+				// different types
+				box := b.P.NewDecl(0, "Box", StructOf(FieldT{Name: "ID_", Ty: Basic("tr.ID")}, FieldT{Name: "V", Ty: Basic("T0")}), "struct")
+				box.TParams = 1
+				ta := b.NamedOf(0, "ArgA", StructOf(FieldT{Name: "X", Ty: Basic("int")}), "none")
+				tb := b.NamedOf(0, "ArgB", StructOf(FieldT{Name: "X", Ty: Basic("int")}), "none")
+				inst := func(a *Ty) *Ty { return &Ty{K: "named", Decl: box, DeclID: box.ID, TArgs: []*Ty{a}} }
+				need, have = inst(tb), inst(ta)
+				if form == "other-instantiation-nested" {
+					need, have = inst(inst(ta)), inst(ta)
+				}
+			case "other-spelling":
+				// rune and int32 are one type: accepted
+				need, have = SliceOf(Basic("rune")), SliceOf(Basic("int32"))
+				accept = true
 			}
 			hv := b.Func(0, "NewHave", have, false, false)
 			hv.Stub = true
@@ -177,9 +193,26 @@ func nearMissCases() []*RejectCase {
 				f.Stub = true
 				items = append(items, f)
 				result = u
+			case "func-param-after-have":
+				// the provided near miss is an earlier parameter of the same provider
+				u := b.Carrier(0, "User")
+				f := b.Func(0, "NewUser", u, false, false, have, need)
+				f.Stub = true
+				items = append(items, f)
+				result = u
+				if accept {
+					continue // one provider cannot take the same type twice
+				}
 			case "struct-field":
 				s := b.NamedOf(0, "Holder", StructOf(FieldT{Name: "F", Ty: need}), "none")
 				items = append(items, b.Struct(s, false, "F"))
+				result = s
+			case "struct-field-after-have":
+				if accept {
+					continue
+				}
+				s := b.NamedOf(0, "Holder", StructOf(FieldT{Name: "H", Ty: have}, FieldT{Name: "F", Ty: need}), "none")
+				items = append(items, b.Struct(s, false, "H", "F"))
 				result = s
 			case "fields-parent", "fields-parent-ptr-to-field":
 				// a field selection whose parent is `need`; only `have` is provided
